@@ -377,6 +377,29 @@ def check_grid(ctx: Ctx):
     ctx.ob("C11-O6", "R18 table", nb, "moves stay inside the grid and off blocked cells; the yielded cost is the (possibly scaled) cell cost", ok, "", node=nb.node)
     mod = ctx.repo.module("a_star")
     src = ast.unparse(mod.tree)
+    # each named heuristic is the distance it is named after, in cost units (astar adds it to g): one table row per name
+    want_h = {
+        "manhattan": {"abs(s[0] - gr) + abs(s[1] - gc)"},
+        "euclidean": {"((s[0] - gr) ** 2 + (s[1] - gc) ** 2) ** 0.5", "sqrt((s[0] - gr) ** 2 + (s[1] - gc) ** 2)", "hypot(s[0] - gr, s[1] - gc)"},
+        "chebyshev": {"max(abs(s[0] - gr), abs(s[1] - gc))"},
+        "octile": {"max(dr, dc) + _SQRT2_MINUS_1 * min(dr, dc)"},
+        "_": {"abs(s[0] - gr) + abs(s[1] - gc)"},
+    }
+    n_h = 0
+    for m_ in (x for x in own_nodes(f.node) if isinstance(x, ast.Match)):
+        for case in m_.cases:
+            pat = case.pattern
+            name = pat.value.value if isinstance(pat, ast.MatchValue) and isinstance(pat.value, ast.Constant) else "_" if isinstance(pat, ast.MatchAs) and pat.pattern is None else None
+            defs = [d for d in case.body if isinstance(d, ast.FunctionDef)]
+            if name not in want_h or len(defs) != 1:
+                continue
+            n_h += 1
+            rets = [r for r in ast.walk(defs[0]) if isinstance(r, ast.Return)]
+            arg = defs[0].args.args[0].arg if defs[0].args.args else "s"
+            got = [ast.unparse(r.value).replace(f"{arg}[", "s[") if r.value is not None else "None" for r in rets]
+            extra_ok = name != "octile" or any(ast.unparse(st).replace(f"{arg}[", "s[") == "dr, dc = (abs(s[0] - gr), abs(s[1] - gc))" for st in defs[0].body)
+            ctx.ob("C11-O6", "R18 table", f, f"heuristic `{name}` is the distance of that name to the goal cell, in step-cost units", len(got) == 1 and got[0] in want_h[name] and extra_ok, f"`{got[0] if got else '?'}`: astar adds the estimate to the cost so far - an estimate in other units (a squared distance, a scaled one) overestimates, and a longer path comes back labelled OPTIMAL", node=defs[0])
+    ctx.floor("named grid heuristics", n_h, 5)
     ctx.ob("C11-O6", "R18 table", f, "octile heuristic = max + (sqrt2 - 1) * min; constants derive from sqrt(2)", "max(dr, dc) + _SQRT2_MINUS_1 * min(dr, dc)" in t and "_SQRT2 = sqrt(2)" in src and "_SQRT2_MINUS_1 = _SQRT2 - 1" in src, "", node=f.node)
     ctx.ob("C11-O6", "R18 table", f, "move sets: 8 directions without (0,0); 4 directions = axis moves", "if (dx, dy) != (0, 0)" in src and "if dx == 0 or dy == 0" in src and ast.unparse(ast.parse("dirs = _DIRS_8 if directions == 8 else _DIRS_4")) in t, "", node=f.node)
     hard = []
@@ -766,7 +789,12 @@ def _v_bf_unbounded_walk(tree):
     M.replace_stmt(g, lambda s: isinstance(s, ast.If) and M.src_has(s.test, "len(path) > len(parent)"), [])
 
 
+def _v_euclidean_squared(tree):
+    g = M.find_func(tree, "astar_grid")
+    M.replace_expr(g, lambda e: M.src_is(e, "((s[0] - gr) ** 2 + (s[1] - gc) ** 2) ** 0.5"), M.expr("(s[0] - gr) ** 2 + (s[1] - gc) ** 2"))
+
 VARIANTS = [
+    M.Variant("euclidean grid heuristic without the square root (seed C11-Z)", AS, _v_euclidean_squared, "C11-O6"),
     M.Variant("bellman_ford walks the parent pointers without a bound: a rounding-made parent cycle never returns (original defect, ledger row 71)", BF, _v_bf_unbounded_walk, "C11-O7"),
     M.Variant("check_edge_nodes returns early when the sources are non-negative and no endpoint is too large (seed C11-U)", "solvor/utils/validate.py", _v_edge_validator_fast_path, "C11-G7"),
     M.Variant("astar_grid lowers the caller's iteration budget to the number of passable cells (seed C11-S)", AS, _v_grid_budget_capped, "C11-G17"),
